@@ -1,19 +1,37 @@
 """C13 - variable metadata reports the declared attributes (Engine B).
 
 Real code: generate() -> Generator._ast_symbols_to_variables (coercions) -> Variable attributes,
-and Model.variable_metadata_function (including the affine rebuild A*p+b).  For each enumerated
-model the metadata Function and every symbolic Variable attribute are translated to z3 and proved
-equal, for ALL parameter values, to the reference meaning (ast2z3) of the flat symbol's attribute
-expression; defaults and Python types are compared concretely.
+Model.simplify() (the option-dependent rewrites of the metadata: expand_vectors, resolve/replace
+parameter values, replace parameter/constant expressions and values), Model.variable_metadata_function
+(including the affine rebuild A*p+b) and api.transfer_model / save_model / load_model (the Variable
+objects and the pickled metadata function of a model served from the cache).  For each enumerated
+(model, option set, observation point) the metadata Function and every symbolic Variable attribute are
+translated to z3 and proved equal, for ALL parameter values, to the reference meaning of the declared
+attribute expression; defaults and Python types are compared concretely.
+
+Reference meaning: for flat single-class models ast2z3 of the flat symbol's attribute expression; for
+hierarchical models (modifications written in an enclosing scope whose parameter names are shadowed
+inside the component) the expected flat attributes come from the independent reference instantiator
+vk/ref/flatten_ref.py, so a flattening defect cannot hide on both sides.
+
+Options that inline parameter values: the claim is then made for every parameter vector that is consistent
+with the declarations (z3 assumption `parameter == declared value expression` for the parameters that have
+one); parameters WITHOUT a declared value stay unconstrained.
 """
-import math
+import itertools
+import os
+import re
+import shutil
 import sys
+import tempfile
 import traceback
 
 import casadi as ca
 import numpy as np
 import z3
 
+from vk.flatcmp import zexpr
+from vk.ref.flatten_ref import Cls, Comp, Lib
 from vk.report import Collector, EncodingGap, Report, run_parallel, std_args
 from vk.smt import equiv, modelio, ops, pipeline
 from vk.smt.ast2z3 import Ref, flat_colmajor, shape_of
@@ -26,11 +44,41 @@ DEFAULTS = {"value": float("nan"), "start": 0, "min": float("-inf"), "max": floa
 
 EXPRS = ["3", "2.5", "-4", "p", "-q", "2 * p + q", "p - 3 * q + 1", "p * q", "p / q", "max(p, q)", "p ^ 2",
          "if p > q then p else q", "sin(p)", "(p + q) * (p - q)", "min(p, 2) + abs(q)", "p * 2 / 4 - q", "1 / p"]
+# the same list without uninterpreted functions: used when an option inlines parameter VALUES (sin(2) would be a
+# float on one side and an uninterpreted application on the other)
+EXPRS_ALG = [e if e != "sin(p)" else "p * p - q" for e in EXPRS]
 AEXPRS = ["{1, 2, 3}", "p", "{1.5, -2, 3}", "2 * p + q", "{0, 0, 0}", "max(p, q)", "p * q", "-1", "{4, 5, 6}", "p / q"]
 
+# ------------------------------------------------------------------------------------------ option sets
+# name -> (compiler options, which parameters the claim pins to their declared value)
+#   pin "none":   no parameter is inlined, the claim is for all parameter vectors
+#   pin "exprs":  parameters whose declared value is an expression of other parameters are eliminated
+#   pin "valued": every parameter with a declared value may be inlined
+OPTSETS = {
+    "plain": ({}, "none"),
+    "mx": ({"expand_mx": True}, "none"),
+    "ev": ({"expand_vectors": True}, "none"),
+    "ev+mx": ({"expand_vectors": True, "expand_mx": True}, "none"),
+    "rpv": ({"resolve_parameter_values": True}, "valued"),
+    "rpv+ev": ({"resolve_parameter_values": True, "expand_vectors": True}, "valued"),
+    "rpv+mx": ({"resolve_parameter_values": True, "expand_mx": True}, "valued"),
+    "replv": ({"replace_parameter_values": True}, "valued"),
+    "replv+ev": ({"replace_parameter_values": True, "expand_vectors": True}, "valued"),
+    "replv+ev+mx": ({"replace_parameter_values": True, "expand_vectors": True, "expand_mx": True}, "valued"),
+    "rpe": ({"replace_parameter_expressions": True}, "exprs"),
+    "rpe+replv": ({"replace_parameter_expressions": True, "replace_parameter_values": True}, "valued"),
+    "rpe+ev": ({"replace_parameter_expressions": True, "expand_vectors": True}, "exprs"),
+    "rcv": ({"replace_constant_expressions": True, "replace_constant_values": True}, "none"),
+    "rcv+ev": ({"replace_constant_expressions": True, "replace_constant_values": True, "expand_vectors": True}, "none"),
+    "rcv+rpv": ({"replace_constant_expressions": True, "replace_constant_values": True, "resolve_parameter_values": True}, "valued"),
+    "rcv+replv": ({"replace_constant_expressions": True, "replace_constant_values": True, "replace_parameter_values": True}, "valued"),
+    "rcv+rpe": ({"replace_constant_expressions": True, "replace_constant_values": True, "replace_parameter_expressions": True}, "exprs"),
+}
 
-def scalar_model(i):
-    e = lambda k: EXPRS[(i + k) % len(EXPRS)]
+
+# ------------------------------------------------------------------------------------------ flat model texts
+def scalar_model(i, exprs=EXPRS):
+    e = lambda k: exprs[(i + k) % len(exprs)]
     return f"""model M
   parameter Real p = 2;
   parameter Real q = 3;
@@ -100,6 +148,282 @@ equation
 end M;
 """
 
+# arithmetic on a 2-D array literal (the 1-D forms `{1, 2, 3} + pv`, `p * {1, 2, 3}` are members of the families below)
+MATRIX_LIT_ARITH = """model M
+  parameter Real p = 2;
+  parameter Real Q[2,2] = {{1, 2}, {3, 4}};
+  Real A[2,2](max = Q + {{1, 2}, {3, 4}}, min = p * {{1, 2}, {3, 4}});
+  Real t;
+equation
+  t = 1;
+end M;
+"""
+
+# --- parameters WITHOUT a declared value, parameters whose value depends on them, Boolean / Integer parameters
+NEXPRS = ["a", "b", "e + 1", "a / 2", "-c", "d", "f", "a * b", "e - d", "2 * a + b", "a * a", "max(a, b)", "c", "3",
+          "g - f", "b * c"]
+
+
+def nov_model(i, arrays=True):
+    e = lambda k: NEXPRS[(i + k) % len(NEXPRS)]
+    arr = f"  Real s[2](each max = {e(6)}, each min = {e(7)});\n  Real s3[3](max = av, each start = {e(11)});\n" if arrays else ""
+    arr_eq = "  s = {1, 2}; s3 = {1, 2, 3};\n" if arrays else ""
+    arr_par = "  parameter Real av[3];\n" if arrays else ""
+    return f"""model M
+  parameter Real a;
+  parameter Real b = 0.5;
+  parameter Real c = 2;
+  parameter Real d = c * b;
+  parameter Real e = 3 * a;
+  parameter Real f = e + d;
+  parameter Real g(min = {e(8)}, max = {e(9)});
+  parameter Integer n;
+  parameter Integer m = {4 + i % 3};
+  parameter Boolean hold;
+  parameter Boolean on = {'true' if i % 2 else 'false'};
+{arr_par}  Real x(min = {e(0)}, max = {e(1)}, nominal = {e(2)}, start = {e(3)}, fixed = hold);
+  Real y(max = {e(4)}, start = {e(5)}, fixed = on);
+{arr}  Integer k(min = 1, max = n);
+  Integer k2(max = m + n, start = m);
+  input Real u(max = {e(10)}, fixed = {'hold' if i % 2 else 'on'});
+  Real z(fixed = {'on' if i % 3 else 'hold'}, start = {e(12)});
+equation
+  der(x) = -x + u;
+  der(z) = 1;
+  y = x; k = 1; k2 = 2;
+{arr_eq}end M;
+"""
+
+
+# --- vectors with vector-valued symbolic attributes, literal/parameter mixes, Integer arrays
+VEXPRS = ["pv", "2 * pv", "pv + {1, 2, 3}", "{1, 2, 3} + pv", "p * {1, 2, 3}", "-pv", "pv - nv", "nv", "p * pv + nv", "pv / 2"]
+
+
+def vec_model(i):
+    e = lambda k: VEXPRS[(i + k) % len(VEXPRS)]
+    return f"""model M
+  parameter Real p = 2;
+  parameter Real pv[3] = {{1.5, -2, 4}};
+  parameter Real nv[3];
+  parameter Integer iv[3] = {{1, 2, 3}};
+  parameter Real sv[3](max = {e(5)}) = pv;
+  Real v[3](start = {e(0)}, min = {e(1)}, max = {e(2)});
+  Real w[3](nominal = {e(3)}, each max = p);
+  Integer c[3](max = iv, min = {{0, -1, -2}});
+  input Real uu[3](max = {e(4)});
+equation
+  der(v) = -v;
+  w = v; c = {{1, 2, 3}};
+end M;
+"""
+
+
+# --- matrices (both dimensions > 1, and the degenerate 1xn / nx1) with matrix-valued symbolic attributes
+SHAPES = [(2, 3), (3, 2), (2, 2), (1, 3), (3, 1)]
+MEXPRS = ["Q", "-2 * Q", "Q + R", "p * Q", "Q - p * R", "LIT", "p", "R / 2", "R", "transpose(T) - Q"]
+
+
+def _lit(n, m, k=0, scale=1.0):
+    rows = []
+    for r in range(n):
+        rows.append("{" + ", ".join(repr((1 + k + r * m + c) * scale) for c in range(m)) + "}")
+    return "{" + ", ".join(rows) + "}"
+
+
+def matrix_model(i):
+    n, m = SHAPES[i % len(SHAPES)]
+    e = lambda k: MEXPRS[(i + k) % len(MEXPRS)].replace("LIT", _lit(n, m, k, 0.5))
+    qv = "{" + ", ".join(str(3 * c + 1) for c in range(m)) + "}"
+    return f"""model M
+  parameter Real p = 2;
+  parameter Real Q[{n},{m}] = {_lit(n, m)};
+  parameter Real R[{n},{m}];
+  parameter Real T[{m},{n}];
+  parameter Real qv[{m}] = {qv};
+  parameter Real S[{n},{m}](min = {e(6)}) = Q;
+  Real A[{n},{m}](max = {e(0)}, min = {e(1)}, start = {e(2)}, each nominal = p);
+  Real B[{n},{m}](start = {e(3)}, max = {e(4)});
+  input Real U[{n},{m}](min = {e(5)});
+  Real z[{m}](max = qv, min = -p * qv);
+  Real t(max = 3 * p + 1);
+equation
+  t = 1;
+end M;
+"""
+
+
+def big_model(i):
+    """Arrays with >= 10 elements: element names have two-digit subscripts."""
+    n = 10 + i
+    lit = "{" + ", ".join(str(3 * k - 7) for k in range(n)) + "}"
+    return f"""model M
+  parameter Real p = 2;
+  parameter Real pv[{n}] = {lit};
+  parameter Real nv[{n}];
+  Real v[{n}](max = {['pv', 'nv', '2 * pv - nv'][i % 3]}, min = {lit}, each nominal = p);
+  Real w[{n}](start = {['nv', 'p * pv', lit][i % 3]});
+  Real M2[2,{n // 2 + 1}](each max = p + 1);
+equation
+  der(v) = -v;
+end M;
+"""
+
+
+# --- constants in attribute expressions (only meaningful once constants are replaced: they are no Function input)
+CEXPRS = ["kc", "kd", "p + kc", "kc * p", "-kd", "kc / 2", "ki", "p - kd", "2", "kd - kc"]
+
+
+def const_model(i):
+    e = lambda k: CEXPRS[(i + k) % len(CEXPRS)]
+    return f"""model M
+  constant Real kc = 4;
+  constant Real kd = kc * 2 + 1;
+  constant Integer ki = {3 + i % 2};
+  parameter Real p = 2;
+  parameter Real r(max = {e(6)}) = kc + p;
+  Real x(min = {e(0)}, max = {e(1)}, start = {e(2)}, nominal = {e(3)});
+  Integer n(max = ki, start = ki - 1);
+  Real v[2](each max = {e(4)}, each min = kd);
+  input Real u(min = {e(5)});
+equation
+  der(x) = -x + u; n = 1; v = {{1, 2}};
+end M;
+"""
+
+
+# ------------------------------------------------------------------------------------------ hierarchical models
+V = lambda p: ("v", p)
+N = lambda x: ("n", x)
+HATTRS = ["max", "start", "nominal", "min"]
+
+
+def hexpr(j, a="k", b="g"):
+    """Modification expressions over two names of the WRITING scope (a is shadowed inside the component)."""
+    return [V(a), ("+", ("*", N(3), V(a)), N(1)), ("*", V(a), V(b)), ("neg", V(a)), ("-", V(a), V(b)),
+            ("+", V(b), ("*", N(2), V(a)))][j % 6]
+
+
+def hier_lib(i, dotted, top):
+    """Tank (parameters k, h) used in Plant (parameters k, g) used in Site (parameters k, h, g): every modification is
+    written one or two levels above the variable it modifies and mentions names that also exist further in."""
+    a0, a1, a2 = HATTRS[i % 4], HATTRS[(i + 1) % 4], HATTRS[(i + 2) % 4]
+    tank = Cls("Tank", comps=[
+        Comp("k", "Real", ["parameter"], value=N(2)),
+        Comp("h", "Real", ["parameter"], value=N(1), mods={"max": ("*", V("k"), N(3))}),
+        Comp("x", "Real", mods={"min": ("neg", V("h")), "max": N(10)}),
+        Comp("y", "Real", mods={"nominal": N(4), "start": V("k")}),
+        Comp("c", "Integer", mods={"max": N(7)}),
+    ], eqs=[(("der", V("x")), ("neg", V("x"))), (V("y"), N(2)), (V("c"), N(1))])
+    a_mods = {"x": {a0: hexpr(i), a1: V("g")}, "y": {a2: hexpr(i + 1)}}
+    b_mods = {"k": {"value": N(7)}, "x": {a0: hexpr(i + 2)}}
+    if i % 3 == 0:   # the attribute of the component's OWN parameter k, written with the enclosing k
+        a_mods["k"] = {"max": ("+", V("k"), N(1))}
+    if i % 3 == 1:   # a parameter value given by an enclosing expression, used by an inner attribute (x.min = -h)
+        a_mods["h"] = {"value": ("*", N(2), V("k"))}
+    if i % 3 == 2:
+        b_mods["y"] = {"fixed": N(True), "start": hexpr(i + 3)}
+    plant = Cls("Plant", comps=[
+        Comp("k", "Real", ["parameter"], value=N(5)),
+        Comp("g", "Real", ["parameter"], value=None if i % 2 else N(3)),
+        Comp("a", "Tank", mods=a_mods),
+        Comp("b", "Tank", mods=b_mods),
+        Comp("w", "Real", mods={"max": V("k"), a1: hexpr(i + 4)}),
+    ], eqs=[(V("w"), N(1))])
+    p1_mods = {"a": {"x": {a2: hexpr(i + 1, "k", "h")}}, "k": {"value": N(6)}}
+    if i % 2:
+        p1_mods["b"] = {"y": {a0: hexpr(i, "h", "g")}, "h": {"min": V("h")}}
+    site = Cls("Site", comps=[
+        Comp("k", "Real", ["parameter"], value=N(9)),
+        Comp("h", "Real", ["parameter"], value=N(8)),
+        Comp("g", "Real", ["parameter"], value=N(-1)),
+        Comp("p1", "Plant", mods=p1_mods),
+        Comp("p2", "Plant", mods={"g": {"value": ("+", V("k"), V("h"))}}),
+    ])
+    for c in (tank, plant, site):
+        c.dotted = dotted
+    return Lib([tank, plant, site]), top
+
+
+# ------------------------------------------------------------------------------------------ references
+class FlatRef:
+    """Reference meaning of a flat single-class model: ast2z3 of a separate, fresh flatten."""
+
+    def __init__(self, text, cls):
+        flat = pipeline.flat_reference(text, cls)
+        self.fc = flat.classes[cls]
+        self.ref = Ref(flat, cls)
+        self.div = self.ref.div
+
+    def has(self, name):
+        return name in self.fc.symbols
+
+    def dims(self, name):
+        return tuple(self.ref.dims[name])
+
+    def type_name(self, name):
+        return self.fc.symbols[name].type.name
+
+    def terms(self, name, attr):
+        """-> (column-major list of z3 terms, one per element; is_default)"""
+        sym = self.fc.symbols[name]
+        numel = int(np.prod(self.dims(name))) if self.dims(name) else 1
+        return ref_attr_terms(self.ref, sym, attr, numel, None)
+
+    def pins(self, policy):
+        """Assumptions `parameter element == declared value` (constants always: that is their meaning)."""
+        out = []
+        for name, sym in self.fc.symbols.items():
+            is_par, is_const = "parameter" in sym.prefixes, "constant" in sym.prefixes
+            if not (is_par or is_const):
+                continue
+            vals, is_default = self.terms(name, "value")
+            if is_default:
+                continue
+            if is_par:
+                if policy == "none":
+                    continue
+                if policy == "exprs" and not any(equiv.free_consts(v) for v in vals):
+                    continue
+            elems = flat_colmajor(self.ref.env[name]) if self.dims(name) else [self.ref.env[name]]
+            out += [el == v for el, v in zip(elems, vals)]
+        return out
+
+
+class LibRef:
+    """Reference meaning of a hierarchical model: the independent instantiator's expected flat attributes."""
+
+    def __init__(self, lib, cls):
+        self.vars, _ = lib.flatten(cls)
+        self.div = ops.Divisors()
+
+    def has(self, name):
+        return name in self.vars
+
+    def dims(self, name):
+        return tuple(self.vars[name]["dims"])
+
+    def type_name(self, name):
+        return self.vars[name]["type"]
+
+    def terms(self, name, attr):
+        e = self.vars[name]["attrs"].get(attr)
+        numel = int(np.prod(self.dims(name))) if self.dims(name) else 1
+        if e is None or (attr == "fixed" and e == ("n", False)):
+            return [ops.const(DEFAULTS[attr])] * numel, True
+        return [zexpr(e)] * numel, False
+
+    def pins(self, policy):
+        out = []
+        for name, v in self.vars.items():
+            e = v["attrs"].get("value")
+            if e is None or "parameter" not in v["prefixes"] or policy == "none":
+                continue
+            t = zexpr(e)
+            if policy == "exprs" and not equiv.free_consts(t):
+                continue
+            out.append(z3.Real(name) == t)
+        return out
+
 
 def ref_attr_terms(ref, sym, attr, numel, dims):
     node = getattr(sym, attr)
@@ -114,59 +438,108 @@ def ref_attr_terms(ref, sym, attr, numel, dims):
     return [v] * numel, False
 
 
-def check_model(col, text, case):
-    model = pipeline.real_generate(text, "M")
-    flat = pipeline.flat_reference(text, "M")
-    fc = flat.classes["M"]
-    ref = Ref(flat, "M")
+_ELEM = re.compile(r"^(.*)\[([0-9,]+)\]$")
+
+
+def locate(R, name):
+    """Model variable name -> (declared name, column-major element index or None for the whole variable)."""
+    if R.has(name):
+        return name, None
+    m = _ELEM.match(name)
+    if m and R.has(m.group(1)):
+        base, idx = m.group(1), [int(s) - 1 for s in m.group(2).split(",")]
+        dims = R.dims(base)
+        if len(idx) != len(dims) or any(not 0 <= k < d for k, d in zip(idx, dims)):
+            return None, None
+        if len(dims) == 1:
+            return base, idx[0]
+        if len(dims) == 2:
+            return base, idx[0] + idx[1] * dims[0]
+    return None, None
+
+
+# ------------------------------------------------------------------------------------------ the comparison
+def check_model(col, model, R, case, text, pins=(), extra=None):
+    """model: the object the real pipeline produced (fresh Model or CachedModel); R: FlatRef / LibRef."""
+    rp = dict({"model_text": text}, **(extra or {}))
     pnames = [nm for s in model._symbols(model.parameters) for nm in modelio.sym_elem_names(s)]
-    f = model.variable_metadata_function
-    _, zout, div = sx2z3(f, [pnames], ref.div)
+    try:
+        f = model.variable_metadata_function
+    except Exception as e:
+        col.violation(f"{case}:metadata-raises:{type(e).__name__}", f"variable_metadata_function raises {type(e).__name__}: {str(e)[-160:]}", rp)
+        return
+    _, zout, div = sx2z3(f, [pnames], R.div)
     groups = [model.states, model.alg_states, model.inputs, model.parameters, model.constants]
     if len(zout) != len(groups):
-        col.violation(case + ":n_out", "metadata function has wrong number of outputs", {"model_text": text})
+        col.violation(case + ":n_out", "metadata function has wrong number of outputs", rp)
         return
+    pins = list(pins)
+    seen = set()
     for gi, (group, out) in enumerate(zip(groups, zout)):
         rows = sum(v.symbol.numel() for v in group)
         if out["shape"] != (rows, 6) and not (rows == 0):
-            col.violation(f"{case}:g{gi}:shape", f"metadata output {gi} has shape {out['shape']}, expected {(rows, 6)}", {"model_text": text})
+            col.violation(f"{case}:g{gi}:shape", f"metadata output {gi} has shape {out['shape']}, expected {(rows, 6)}", rp)
             continue
         r0 = 0
         for v in group:
             name = v.symbol.name()
-            sym = fc.symbols[name]
             n = v.symbol.numel()
+            base, elem = locate(R, name)
+            if base is None:
+                col.violation(f"{case}:{name}:undeclared", f"model variable {name} corresponds to no declared variable (element)", rp)
+                r0 += n
+                continue
+            seen.add((base, elem))
             # python type
-            want = {"Real": float, "Integer": int, "Boolean": bool}.get(sym.type.name, float)
+            want = {"Real": float, "Integer": int, "Boolean": bool}.get(R.type_name(base), float)
             if v.python_type is not want:
-                col.violation(f"{case}:{name}:python_type", f"{name}: python_type {v.python_type.__name__}, declared {sym.type.name}", {"model_text": text})
+                col.violation(f"{case}:{name}:python_type", f"{name}: python_type {v.python_type.__name__}, declared {R.type_name(base)}", rp)
             for ci, attr in enumerate(ATTRS):
-                want_terms, is_default = ref_attr_terms(ref, sym, attr, n, None)
+                want_terms, is_default = R.terms(base, attr)
+                if elem is not None:
+                    want_terms = [want_terms[elem]]
+                if len(want_terms) != n:
+                    col.violation(f"{case}:{name}:numel", f"{name} has {n} elements, declared {len(want_terms)}", rp)
+                    break
                 got_terms = [out["dense"][ci * rows + r0 + k] for k in range(n)]
-                assume = div.nonzero()
+                assume = div.nonzero() + pins
                 for k, (g, w) in enumerate(zip(got_terms, want_terms)):
                     col.bump("attribute_elements")
                     if g.get_id() == w.get_id():
                         col.count("unsat")
                     else:
-                        r, m = equiv.check(col, assume + [g != w])
+                        r, m = decide(col, assume, g, w, bool(pins))
                         if r == "sat":
-                            pt = equiv.point_from_model(m, [g, w])
-                            conf = replay_meta(f, pnames, gi, ci * rows + r0 + k, w, pt)
+                            pt = equiv.point_from_model(m, [g, w] + pins)
+                            conf = replay_meta(f, pnames, gi, ci * rows + r0 + k, w, pt, perturb=not pins)
                             if conf:
-                                col.violation(f"{case}:{name}.{attr}[{k}]", f"metadata function: {name}.{attr} differs from the declared expression", {"model_text": text, "detail": conf})
+                                col.violation(f"{case}:{name}.{attr}[{k}]", f"metadata function: {name}.{attr} differs from the declared expression", dict(rp, detail=conf))
                             else:
                                 col.note_inconclusive(f"{case}:{name}.{attr}[{k}] sat did not replay")
                         elif r == "unknown":
                             col.note_inconclusive(f"{case}:{name}.{attr}[{k}] unknown")
                 # the attribute on the Variable object itself
                 val = getattr(v, attr)
-                check_object_attr(col, model, case, text, name, attr, val, want_terms, is_default, pnames, div, want, sym)
+                check_object_attr(col, model, case, rp, name, attr, val, want_terms, is_default, pnames, div, want, pins, elem is not None)
             r0 += n
+    return seen
 
 
-def replay_meta(f, pnames, gi, idx, wterm, pt):
-    for p in equiv.perturbations(pt, 0):
+def decide(col, assume, g, w, inlined):
+    """z3: exists a parameter vector (satisfying assume) where g != w?  When parameter values were inlined, CasADi has
+    evaluated sub-expressions in floating point (2/3 is a double on one side, a rational on the other): a numeral g
+    that differs from w is then re-examined with the replay tolerance before it counts as a disagreement."""
+    r, m = equiv.check(col, assume + [g != w])
+    if r == "sat" and inlined:
+        gs = z3.simplify(g)
+        if z3.is_rational_value(gs):
+            tol = 1e-9 * (1 + abs(float(gs.as_fraction())))
+            r, m = equiv.check(col, assume + [z3.Or(w - g > tol, g - w > tol)])
+    return r, m
+
+
+def replay_meta(f, pnames, gi, idx, wterm, pt, perturb=True):
+    for p in (equiv.perturbations(pt, 0) if perturb else [dict(pt)]):
         try:
             got = modelio.eval_function(f, [pnames], p)[gi][idx]
             want = equiv.z3eval(wterm, pipeline._Default(p))
@@ -177,26 +550,34 @@ def replay_meta(f, pnames, gi, idx, wterm, pt):
     return None
 
 
-def check_object_attr(col, model, case, text, name, attr, val, want_terms, is_default, pnames, div, ptype, sym):
+def check_object_attr(col, model, case, rp, name, attr, val, want_terms, is_default, pnames, div, ptype, pins=(), element=False):
     psyms = model._symbols(model.parameters)
+    pins = list(pins)
+    if val is None:
+        col.violation(f"{case}:{name}.{attr}:obj-none", f"Variable {name}.{attr} is None instead of the declared value", rp)
+        return
     if isinstance(val, ca.MX) and not val.is_constant():
-        fa = ca.Function("a", [ca.veccat(*psyms)], [val], {"allow_free": False})
+        try:
+            fa = ca.Function("a", [ca.veccat(*psyms)], [val], {"allow_free": False})
+        except RuntimeError as e:
+            col.violation(f"{case}:{name}.{attr}:obj-free", f"Variable {name}.{attr} = {str(val)[:60]} is not a function of the model's parameters: {str(e)[-120:]}", rp)
+            return
         _, zo, _ = sx2z3(fa, [pnames], div)
         got = zo[0]["dense"]
         if len(got) == 1 and len(want_terms) > 1:
             got = got * len(want_terms)
         if len(got) != len(want_terms):
-            col.violation(f"{case}:{name}.{attr}:obj-shape", f"Variable {name}.{attr} has {len(got)} elements, expected {len(want_terms)}", {"model_text": text})
+            col.violation(f"{case}:{name}.{attr}:obj-shape", f"Variable {name}.{attr} has {len(got)} elements, expected {len(want_terms)}", rp)
             return
         for k, (g, w) in enumerate(zip(got, want_terms)):
             if g.get_id() == w.get_id():
                 col.count("unsat")
                 continue
-            r, m = equiv.check(col, div.nonzero() + [g != w])
+            r, m = decide(col, div.nonzero() + pins, g, w, bool(pins))
             if r == "sat":
-                pt = equiv.point_from_model(m, [g, w])
+                pt = equiv.point_from_model(m, [g, w] + pins)
                 conf = None
-                for p in equiv.perturbations(pt, 0):
+                for p in (equiv.perturbations(pt, 0) if not pins else [dict(pt)]):
                     try:
                         gv = modelio.eval_function(fa, [pnames], p)[0]
                         gv = gv[k] if len(gv) > 1 else gv[0]
@@ -207,13 +588,13 @@ def check_object_attr(col, model, case, text, name, attr, val, want_terms, is_de
                         conf = {"point": p, "impl": gv, "ref": wv}
                         break
                 if conf:
-                    col.violation(f"{case}:{name}.{attr}[{k}]:obj", f"Variable object: {name}.{attr} differs from the declared expression", {"model_text": text, "detail": conf})
+                    col.violation(f"{case}:{name}.{attr}[{k}]:obj", f"Variable object: {name}.{attr} differs from the declared expression", dict(rp, detail=conf))
                 else:
                     col.note_inconclusive(f"{case}:{name}.{attr}[{k}]:obj sat did not replay")
             elif r == "unknown":
                 col.note_inconclusive(f"{case}:{name}.{attr}[{k}]:obj unknown")
         return
-    # concrete attribute: compare numerically with the (numeral) reference
+    # concrete attribute: compare numerically with the reference (a numeral once the pinned parameters are inserted)
     try:
         if isinstance(val, ca.MX):
             val = ca.evalf(val)  # a constant expression CasADi did not fold (e.g. 10 / 4)
@@ -225,39 +606,163 @@ def check_object_attr(col, model, case, text, name, attr, val, want_terms, is_de
     if len(flat) == 1 and len(want_terms) > 1:
         flat = flat * len(want_terms)
     if len(flat) != len(want_terms):
-        col.violation(f"{case}:{name}.{attr}:obj-shape", f"Variable {name}.{attr} has {len(flat)} elements, expected {len(want_terms)}", {"model_text": text})
+        col.violation(f"{case}:{name}.{attr}:obj-shape", f"Variable {name}.{attr} has {len(flat)} elements, expected {len(want_terms)}", rp)
         return
     for k, (g, w) in enumerate(zip(flat, want_terms)):
         try:
             wv = equiv.z3eval(w, {"__nan__": float("nan"), "__inf__": float("inf")})
         except KeyError:
-            col.violation(f"{case}:{name}.{attr}[{k}]:obj-const", f"Variable {name}.{attr} is the constant {g} but the declared expression depends on parameters", {"model_text": text})
+            if not pins:
+                col.violation(f"{case}:{name}.{attr}[{k}]:obj-const", f"Variable {name}.{attr} is the constant {g} but the declared expression depends on parameters", rp)
+                continue
+            # parameters were inlined: the solver decides `for every consistent parameter vector: declared == constant`
+            g = float(g)
+            if g != g or g in (float("inf"), float("-inf")):
+                col.violation(f"{case}:{name}.{attr}[{k}]:obj", f"Variable object: {name}.{attr} = {g} but the declared expression depends on parameters", rp)
+                continue
+            gt = ops.const(g)
+            r, m = equiv.check(col, div.nonzero() + pins + [z3.Or(w - gt > 1e-9 * (1 + abs(g)), gt - w > 1e-9 * (1 + abs(g)))])
+            if r == "sat":
+                pt = equiv.point_from_model(m, [w] + pins)
+                try:
+                    wv = equiv.z3eval(w, pipeline._Default(pt))
+                except Exception:
+                    wv = None
+                if wv is None or not equiv.close(g, float(wv)):
+                    col.violation(f"{case}:{name}.{attr}[{k}]:obj", f"Variable object: {name}.{attr} = {g}, declared expression gives {wv}", dict(rp, detail={"point": pt}))
+                else:
+                    col.note_inconclusive(f"{case}:{name}.{attr}[{k}]:obj sat did not replay")
+            elif r == "unknown":
+                col.note_inconclusive(f"{case}:{name}.{attr}[{k}]:obj unknown")
             continue
         if not equiv.close(float(g), float(wv)):
-            col.violation(f"{case}:{name}.{attr}[{k}]:obj", f"Variable object: {name}.{attr} = {g}, declared {wv}", {"model_text": text})
+            col.violation(f"{case}:{name}.{attr}[{k}]:obj", f"Variable object: {name}.{attr} = {g}, declared {wv}", rp)
     # python types of literal attributes (Integer stays int, Real literal becomes float)
     if not is_default and attr != "fixed" and not isinstance(val, (ca.MX, ca.DM, list, np.ndarray)) and ptype in (int, float):
-        if type(val) is not ptype:
-            col.violation(f"{case}:{name}.{attr}:type", f"{name}.{attr} is {type(val).__name__}, variable type is {ptype.__name__}", {"model_text": text})
+        if element and ptype is float and type(val) is int:
+            # an element of an expanded Real array keeps the int of an integer-valued array literal ({1, 2, 3}); the
+            # property only demands that Integer and Boolean variables keep their types
+            col.bump("real_element_attribute_left_int")
+        elif type(val) is not ptype:
+            col.violation(f"{case}:{name}.{attr}:type", f"{name}.{attr} is {type(val).__name__}, variable type is {ptype.__name__}", rp)
     if is_default and attr == "start" and not (val == 0):
-        col.violation(f"{case}:{name}.start:default", f"default start is {val!r}", {"model_text": text})
+        col.violation(f"{case}:{name}.start:default", f"default start is {val!r}", rp)
+
+
+def check_complete(col, model, R, case, rp, seen, names, removed_ok):
+    """Every declared variable (element) is reported by the model; parameters / constants may be absent only under an
+    option that eliminates them."""
+    for name in names:
+        if any(b == name for b, _ in seen):
+            el = {e for b, e in seen if b == name}
+            numel = int(np.prod(R.dims(name))) if R.dims(name) else 1
+            if None not in el and len(el) != numel:
+                col.violation(f"{case}:{name}:elements", f"{name}: {len(el)} of {numel} elements present after expansion", rp)
+        elif not removed_ok(name):
+            col.violation(f"{case}:{name}:missing", f"declared variable {name} is not in the model", rp)
+
+
+# ------------------------------------------------------------------------------------------ building the models
+def build_text(kind, i):
+    if kind == "scalar":
+        return scalar_model(i)
+    if kind == "scalar-alg":
+        return scalar_model(i, EXPRS_ALG)
+    if kind == "typed":
+        return typed_model(i)
+    if kind == "array":
+        return array_model(i)
+    if kind == "array-refs":
+        return ARRAY_REFS
+    if kind == "matrix-lit":
+        return MATRIX_LIT_ARITH
+    if kind == "nov":
+        return nov_model(i, True)
+    if kind == "nov-scalar":
+        return nov_model(i, False)
+    if kind == "matrix":
+        return matrix_model(i)
+    if kind == "vec":
+        return vec_model(i)
+    if kind == "big":
+        return big_model(i)
+    if kind == "const":
+        return const_model(i)
+    raise KeyError(kind)
+
+
+def compile_cached(text, cls, options):
+    """transfer_model twice on a scratch folder: (freshly compiled model that wrote the cache, model served from it)."""
+    from pymoca.backends.casadi import api
+    d = tempfile.mkdtemp(prefix="verif_c13_")
+    try:
+        with open(os.path.join(d, cls + ".mo"), "w") as fh:
+            fh.write(text)
+        o = dict(options, cache=True)
+        first = api.transfer_model(d, cls, dict(o))
+        second = api.transfer_model(d, cls, dict(o))
+        return first, second, isinstance(second, api.CachedModel)
+    finally:
+        shutil.rmtree(d, ignore_errors=True)
 
 
 def work(item):
-    case, text = item
+    case, kind, i, optname, observe = item
     col = Collector()
     try:
+        options, policy = OPTSETS[optname]
+        if kind.startswith("hier"):
+            dotted, top = kind.split("-")[1] == "dotted", kind.split("-")[2]
+            lib, cls = hier_lib(i, dotted, top)
+            text = lib.text()
+            R = LibRef(lib, cls)
+        else:
+            text, cls = build_text(kind, i), "M"
+            R = None
+        rp = {"model_text": text, "class": cls, "options": options, "observe": observe}
+        models = []
+        stage = "generate()"
         try:
-            pipeline.real_generate(text, "M")
+            if observe == "fresh":
+                m = pipeline.real_generate(text, cls, options)
+                if optname != "plain":
+                    stage = "simplify()"
+                    m.simplify(dict(options))
+                models.append(("", m))
+            else:
+                stage = "transfer_model()"
+                first, second, served = compile_cached(text, cls, options)
+                if not served:
+                    col.violation(f"{case}:not-served", "second transfer_model(cache=True) did not return the cached model", rp)
+                models += [(":compiled", first), (":cached", second)]
         except Exception as e:
             # every member of the family uses only attribute forms named in C13
-            col.violation(f"{case}:raises:{type(e).__name__}", f"generate() raises {type(e).__name__}: {str(e)[:100]}",
-                          {"model_text": text})
+            tag = "raises" if stage == "generate()" else stage[:-2] + "-raises"
+            col.violation(f"{case}:{tag}:{type(e).__name__}", f"{stage} raises {type(e).__name__}: {str(e)[:100]}", rp)
             col.bump("programs")
             return col
-        check_model(col, text, case)
+        if R is None:
+            R = FlatRef(text, cls)
+        pins = R.pins(policy)
+        if pins:
+            r, _ = equiv.check(col, pins)
+            if r != "sat":
+                col.harness_error(f"{case}: the declared parameter values are not jointly satisfiable ({r}): vacuous")
+                return col
+        names = list(R.fc.symbols) if isinstance(R, FlatRef) else list(R.vars)
+        prefixes = (lambda nm: R.fc.symbols[nm].prefixes) if isinstance(R, FlatRef) else (lambda nm: R.vars[nm]["prefixes"])
+        removable = set()
+        if any(options.get(k) for k in ("replace_parameter_values", "replace_parameter_expressions")):
+            removable.add("parameter")
+        if any(options.get(k) for k in ("replace_constant_values", "replace_constant_expressions")):
+            removable.add("constant")
+        for tag, m in models:
+            seen = check_model(col, m, R, case + tag, text, pins, rp)
+            if seen is not None:
+                check_complete(col, m, R, case + tag, rp, seen, names, lambda nm: bool(removable & set(prefixes(nm))))
         col.bump("programs")
-        col.sample({"model": case, "text": text}, 2)
+        col.bump("programs_" + observe)
+        col.sample({"model": case, "text": text, "options": options, "observe": observe}, 2)
     except EncodingGap as g:
         col.append("encoding_gaps", f"{case}: {g}")
     except Exception:
@@ -265,13 +770,113 @@ def work(item):
     return col
 
 
+def rot(seq, i, n):
+    """n members of seq starting at a position that rotates with i (quick tier: every option set is met by some model)."""
+    return [seq[(i * n + k) % len(seq)] for k in range(min(n, len(seq)))]
+
+
+def all_items(tier):
+    thorough = tier == "thorough"
+    items = []
+
+    def add(kind, i, optname="plain", observe="fresh", label=None):
+        base = label or f"{kind}{i}"
+        case = base if (optname, observe) == ("plain", "fresh") else f"{base}|{optname}" + ("|cache" if observe == "cached" else "")
+        items.append((case, kind, i, optname, observe))
+
+    # the original families, unchanged case ids
+    for i in range(len(EXPRS)):
+        add("scalar", i)
+    for i in range(5):
+        add("typed", i)
+    for i in range(len(AEXPRS)):
+        add("array", i)
+    add("array-refs", 0, label="array-literal-with-parameter-refs")
+    add("matrix-lit", 0, label="matrix-literal-arithmetic")
+    # option sets over the original families
+    for i in range(len(EXPRS)):
+        for o in (["mx"] if thorough or i % 4 == 0 else []):
+            add("scalar", i, o)
+        sets = ["rpv", "replv", "rpe", "rpe+replv", "rpv+mx"]
+        for o in (sets if thorough else rot(sets, i, 2)):
+            add("scalar-alg", i, o)
+    for i in range(5):
+        sets = ["rpv", "replv", "mx", "rcv", "rpe+replv"]
+        for o in (sets if thorough else rot(sets, i, 2)):
+            add("typed", i, o)
+    for i in range(len(AEXPRS)):
+        sets = ["ev", "ev+mx", "rpv+ev", "replv+ev", "rpe+ev", "rpv"]
+        for o in (sets if thorough else rot(sets, i, 2)):
+            add("array", i, o)
+    # parameters without a declared value
+    for i in range(len(NEXPRS)):
+        sets = ["plain", "rpv", "rpv+ev", "replv", "rpe", "ev", "rpe+replv", "replv+ev", "rpv+mx", "ev+mx"]
+        for o in (sets if thorough else ["rpv"] + rot(sets[2:], i, 2) + (["plain"] if i % 4 == 0 else [])):
+            add("nov", i, o)
+    # matrices with matrix-valued symbolic attributes
+    for i in range(len(MEXPRS)):
+        # replace_parameter_values only with expansion FIRST (ev+mx): on an unexpanded matrix parameter it raises, see
+        # the dedicated item matrix-parameter-replace-values below
+        sets = ["plain", "ev", "ev+mx", "rpv+ev", "replv+ev+mx", "rpe+ev", "rpv"]
+        for o in (sets if thorough else ["ev"] + rot(sets[2:] + sets[:1], i, 1)):
+            add("matrix", i, o)
+    add("matrix", 2, "replv", label="matrix-parameter-replace-values")
+    for i in range(len(VEXPRS)):
+        sets = ["plain", "ev", "ev+mx", "rpv+ev", "replv+ev", "rpe+ev", "rpv", "replv"]
+        for o in (sets if thorough else ["plain"] + rot(sets[1:], i, 2)):
+            add("vec", i, o)
+    for i in range(3 if not thorough else 6):
+        for o in (["ev", "ev+mx", "plain", "rpv+ev"] if thorough else ["ev"]):
+            add("big", i, o)
+    # constants in attributes
+    for i in range(len(CEXPRS)):
+        sets = ["rcv", "rcv+ev", "rcv+rpv", "rcv+replv", "rcv+rpe"]
+        for o in (sets if thorough else rot(sets, i, 2)):
+            add("const", i, o)
+    # hierarchical models with shadowed names, both spellings, two depths
+    for i in range(12):
+        for dotted, top in itertools.product((False, True), ("Plant", "Site")):
+            if not thorough and top == "Site" and (i + dotted) % 2:
+                continue
+            kind = f"hier-{'dotted' if dotted else 'nested'}-{top}"
+            sets = ["plain", "mx", "rpv", "replv", "rpe", "ev"]
+            for o in (sets if thorough else ["plain"] + (rot(sets[1:], i + dotted, 1) if top == "Plant" else [])):
+                add(kind, i, o, label=f"{kind}{i}")
+    # second observation point: the model served from the cache (and the compile that wrote it).  Models with arrays
+    # only together with expand_vectors (unexpanded arrays in the cache: C19's open finding).
+    for i in range(len(NEXPRS)):
+        sets = ["plain", "rpv", "replv", "rpe"]
+        for o in (sets if thorough else rot(sets, i, 1)):
+            add("nov-scalar", i, o, "cached")
+        if thorough or i % 4 == 1:
+            add("nov", i, "ev", "cached")
+    for i in range(len(EXPRS)):
+        if thorough or i % 3 == 0:
+            add("scalar", i, "plain", "cached")
+    for i in range(5):
+        if thorough or i % 2 == 0:
+            add("typed", i, "plain", "cached")
+    for i in range(len(MEXPRS)):
+        if thorough or i % 3 == 0:
+            add("matrix", i, "ev", "cached")
+    for i in range(len(AEXPRS)):
+        if thorough or i % 4 == 0:
+            add("array", i, "ev", "cached")
+    for i in range(len(VEXPRS)):
+        if thorough or i % 4 == 2:
+            add("vec", i, "ev", "cached")
+    for i in range(12):
+        for dotted, top in itertools.product((False, True), ("Plant", "Site")):
+            if thorough or (top == "Plant" and (i + dotted) % 3 == 0):
+                kind = f"hier-{'dotted' if dotted else 'nested'}-{top}"
+                add(kind, i, "plain" if i % 2 else "rpv", "cached", label=f"{kind}{i}")
+    return items
+
+
 def main():
     args = std_args(PROP)
     rep = Report(PROP, args.tier, "translation_validation", args.seed)
-    items = [(f"scalar{i}", scalar_model(i)) for i in range(len(EXPRS))]
-    items += [(f"typed{i}", typed_model(i)) for i in range(5)]
-    items += [(f"array{i}", array_model(i)) for i in range(len(AEXPRS))]
-    items += [("array-literal-with-parameter-refs", ARRAY_REFS)]
+    items = all_items(args.tier)
     for col in run_parallel(work, items, args.jobs):
         rep.merge(col)
     # canary: an attribute compared with the wrong expression must be sat
@@ -280,7 +885,6 @@ def main():
     m = pipeline.real_generate(txt, "M")
     flat = pipeline.flat_reference(scalar_model(0).replace("start = 3", "start = p + q"), "M")
     try:
-        import props.c13 as me
         model = m
         ref = Ref(flat, "M")
         pn = [nm for s in model._symbols(model.parameters) for nm in modelio.sym_elem_names(s)]
@@ -291,13 +895,35 @@ def main():
         rep.coverage["canary_detected"] = (r == "sat")
         if r != "sat":
             rep.harness_error("canary: wrong attribute expression not detected")
+        # second canary: a parameter pinned to its declared value must not make a wrong INLINED value pass
+        R = FlatRef(nov_model(0), "M")
+        pins = R.pins("valued")
+        wt, _ = R.terms("y", "start")          # d = c * b = 1
+        r2, _ = equiv.check(c, pins + [wt[0] != ops.const(2.0)])
+        r3, _ = equiv.check(c, pins + [wt[0] != ops.const(1.0)])
+        rep.coverage["canary_pinned_detected"] = (r2 == "sat" and r3 == "unsat")
+        if not (r2 == "sat" and r3 == "unsat"):
+            rep.harness_error(f"canary: pinned-parameter query gave {r2}/{r3}")
     except Exception:
         rep.harness_error("canary failed: " + traceback.format_exc()[-500:])
     cov = rep.coverage
     cov["disagreements_checked"] = rep.queries.get("sat", 0)
-    cov["functions_encoded"] = ["Generator._ast_symbols_to_variables (via generate)", "Model.variable_metadata_function (SX DAG -> z3, incl. affine rebuild)"]
-    cov["bounds"] = "17 attribute expressions (literal, affine, non-affine) rotated over value/start/min/max/nominal of state/algebraic/input/parameter; arrays of 3 and 2x2; all parameter values unbounded reals"
-    rep.assumptions += ["real arithmetic; sin/pow uninterpreted; divisors non-zero", "NaN and inf defaults are opaque constants shared by both sides"]
+    cov["functions_encoded"] = ["Generator._ast_symbols_to_variables (via generate)", "Model.simplify (metadata rewrites of the option sets)",
+                                "Model.variable_metadata_function (SX DAG -> z3, incl. affine rebuild)",
+                                "api.transfer_model/save_model/load_model (Variable objects and metadata function of the cached model)"]
+    cov["option_sets"] = sorted({it[3] for it in items})
+    cov["bounds"] = (
+        "17 attribute expressions (literal, affine, non-affine) rotated over value/start/min/max/nominal of state/algebraic/input/parameter; "
+        "arrays of 3 and 2x2; matrices 2x3/3x2/2x2/1x3/3x1 with matrix-valued parameter expressions (valued and unvalued parameter matrices); "
+        "arrays of 10-15 elements; parameters without a declared value (Real/Integer/Boolean, arrays), parameter values that depend on them, "
+        "symbolic Boolean `fixed`; constants in attributes (with constant replacement); 12 three-level hierarchies (Tank in Plant in Site) whose "
+        "modifications are written 1-2 levels above in nested and dotted spelling with names shadowed inside the component (expected attributes "
+        "from vk/ref/flatten_ref.py); crossed (rotating in quick, fully in thorough) with the option sets listed in option_sets via generate+simplify, "
+        "and observed on the freshly compiled model, on the compile that writes the cache and on the CachedModel of a second transfer_model; "
+        "all parameter values unbounded reals (under value-inlining options: all vectors consistent with the declared values)")
+    rep.assumptions += ["real arithmetic; sin/pow uninterpreted; divisors non-zero", "NaN and inf defaults are opaque constants shared by both sides",
+                        "under resolve/replace_parameter_values and replace_parameter_expressions the eliminated parameters equal their declared value expressions",
+                        "cached observation: models with unexpanded arrays are only cached together with expand_vectors (C19 open finding on array positions)"]
     return rep.finish()
 
 
